@@ -215,6 +215,7 @@ def shift_loop(p):
     dl = None
     pl = si.t["discr"].get("copy") or si.t["discr"].get("move")
     upd_after = False
+    upd_before = False
     if pl is not None:
         for (dp, b, i, kind, payload) in rot.defs(pl["l"]):
             if kind == "rv" and payload["k"] == "bin":
@@ -227,6 +228,9 @@ def shift_loop(p):
                         if len(ds) >= 2 and inl and len(inl) < len(ds):
                             dl = q_["l"]
                             upd_after = all(rot.dominates(mv.block, d[1]) for d in inl)
+                            # `v -= 1` as the first thing in the body: every use in the iteration sees the decremented value
+                            uses = [c.block for c in rot.calls() if c.block in body and c.callee in (ro["move_file"].path, EXPAND, REPLACE, "alloc::string::ToString::to_string")]
+                            upd_before = bool(inl) and all(all(rot.dominates(d[1], ub) and d[1] != ub for ub in uses) for d in inl)
     first = linear(inits[0], vars_)
     lo = linear(lo_e, vars_)
     last = None
@@ -236,10 +240,21 @@ def shift_loop(p):
             last[1] = last.get(1, 0) + 1
         last = {k: v for k, v in last.items() if v != 0}
 
+    if upd_before and not upd_after:
+        # the values used inside the body are one less than the values tested by the header
+        def dec(lf):
+            if lf is None:
+                return None
+            o = dict(lf)
+            o[1] = o.get(1, 0) - 1
+            return {k: v for k, v in o.items() if v != 0}
+        first, last = dec(first), dec(last)
+
     def exit_(sb, si2, al):
         return sb == head and {si2.label(v) for v, _ in al} == {not truth}
-    m.update(kind="countdown", site=None, var=_loopvar_pred(inits[0]), desc=step_ok and upd_after and dl is not None, first=first, last=last, exit=exit_,
-             detail="while %s %s v, v from %s, step %s, updated after the move: %s" % (show(lo_e, 3), op, show(inits[0], 4), "-1" if step_ok else "?", upd_after))
+    m.update(kind="countdown", site=None, var=_loopvar_pred(inits[0]), desc=step_ok and (upd_after or upd_before) and dl is not None, first=first, last=last, exit=exit_,
+             detail="while %s %s v, v from %s, step %s, updated %s" % (show(lo_e, 3), op, show(inits[0], 4), "-1" if step_ok else "?",
+                                                                     "after the move" if upd_after else ("before every use" if upd_before else "in the middle of the iteration")))
     return m
 
 
@@ -369,6 +384,18 @@ def run_cfg(ctx, p, cfg):
                 good = labs == {True} and len(nonconst) == 1 and all(cv is False for cv in consts)
                 if good:
                     nf = cmp_nf(nonconst[0], True)
+                    zipped = None
+                    if nf is None:
+                        # Option::zip(parent(a), parent(b)).map_or(false, |(a, b)| a != b)
+                        e0 = strip(nonconst[0])
+                        if e0[0] == "call" and e0[1].endswith("Option::<T>::map_or") and len(e0[2]) == 3 and strip(e0[2][1]) == ("const", "bool", False):
+                            z = strip(e0[2][0])
+                            clo = [x for x in walk(e0[2][2]) if x[0] == "closure"]
+                            if z[0] == "call" and z[1].endswith("Option::<T>::zip") and len(clo) == 1:
+                                cnf = cmp_nf(p.fn(clo[0][1]).local_expr(0), True)
+                                if cnf is not None and cnf[0] == "Ne" and all(any(y == ("param", 2) for y in walk(sd)) for sd in cnf[1:]) and deep_strip(cnf[1]) != deep_strip(cnf[2]):
+                                    zipped = ("Ne", z[2][0], z[2][1])
+                    nf = nf or zipped
                     good = nf is not None and nf[0] == "Ne"
                     if good:
                         sides = [nf[1], nf[2]]
@@ -389,17 +416,23 @@ def run_cfg(ctx, p, cfg):
         for blk in f.blocks:
             if blk["term"]["k"] == "switch" and blk["id"] in f.reachable_blocks():
                 si = SwitchInfo(f, blk["id"])
-                nf = cmp_nf(si.discr, True)
-                if nf and nf[0] == "Eq" and {deep_strip(nf[1]), deep_strip(nf[2])} == {("field", ("param", 1), ro["count_field"]), ("const", "int", 0)}:
+                zedge = zero_test(si, ("field", ("param", 1), ro["count_field"]))
+                if zedge is not None:
                     sw = si
+                    sw_zero = zedge
         r.require(sw is not None and sw.b == 0, "zero-count-tested-first", fn=f, detail="roll() begins by testing count == 0")
         if sw:
-            zt, nz = sw.target_of(True), sw.target_of(False)
+            zt, nz = sw.target_of(sw_zero), sw.target_of(not sw_zero)
             zr = f.reach(zt, include_src=True) - f.reach(nz, include_src=True)
             fsc = [c for c in f.calls() if c.block in zr and ((c.callee or "").startswith("std::fs::") or c.callee in p.fns)]
             r.require(len(fsc) == 1 and fsc[0].callee == "std::fs::remove_file" and deep_strip(fsc[0].arg(0)) == ("param", 2), "only-removes-the-file", fn=f,
                       detail="calls on the count==0 edge: %s" % [c.callee for c in fsc])
             rets = [e for b, e in q.ret_assignments(f) if b in zr]
+            if not rets and fsc:
+                # the two arms join before the return: the removal's Result must be what flows into the returned value
+                zall = f.reach(zt, include_src=True)
+                rets = [e for b, e in q.ret_assignments(f) if b in zall and any(x[0] == "call" and x[1] == "std::fs::remove_file" for x in walk(e))]
+                rets = rets if (rets and common.result_is_checked(f, fsc[0], strict=True)) else []
             r.require(bool(rets) and all(any(x[0] == "call" and x[1] == "std::fs::remove_file" for x in walk(e)) for e in rets), "returns-its-result", fn=f,
                       detail="returned on that edge: %s" % [show(e, 4) for e in rets])
             nzr = f.reach(nz, include_src=True)
@@ -591,6 +624,31 @@ def path_provenance_ok(p, f, a, ro, pr):
     return False, "unrecognised path provenance %s" % show(e, 4)
 
 
+def zero_test(si, what):
+    """If the bool switch `si` decides `what == 0` (unsigned), return the truth value of its edge on which what == 0:
+    `x == 0` -> True, `x != 0` / `x > 0` / `0 < x` -> False, `x <= 0` / `x < 1` -> True, `x >= 1` -> False."""
+    if not si.is_bool:
+        return None
+    nf = cmp_nf(si.discr, True)
+    if not nf:
+        return None
+    op, a, b = nf[0], deep_strip(nf[1]), deep_strip(nf[2])
+    Z, ONE = ("const", "int", 0), ("const", "int", 1)
+    if op == "Eq" and {a, b} == {what, Z}:
+        return True
+    if op == "Ne" and {a, b} == {what, Z}:
+        return False
+    if op == "Lt" and a == Z and b == what:        # 0 < x
+        return False
+    if op == "Le" and a == what and b == Z:        # x <= 0
+        return True
+    if op == "Lt" and a == what and b == ONE:      # x < 1
+        return True
+    if op == "Le" and a == ONE and b == what:      # 1 <= x
+        return False
+    return None
+
+
 def _count_guard_dominates_rotate(p):
     """every call of rotate in the Roll impl is on the count != 0 edge of the initial test"""
     ro = roles(p)
@@ -606,13 +664,14 @@ def _count_guard_dominates_rotate(p):
     for blk in f.blocks:
         if blk["term"]["k"] == "switch" and blk["id"] == 0:
             si = SwitchInfo(f, 0)
-            nf = cmp_nf(si.discr, True)
-            if nf and nf[0] == "Eq" and ("const", "int", 0) in (deep_strip(nf[1]), deep_strip(nf[2])):
-                zt = si.target_of(True)
+            zedge = zero_test(si, ("field", ("param", 1), ro["count_field"]))
+            if zedge is not None:
+                zt = si.target_of(zedge)
+                nzt = si.target_of(not zedge)
                 zr = f.reach(zt, include_src=True)
                 direct = [c for c in sites if c.fn is f]
                 spawns = [c for c in f.calls() if any(x[0] == "closure" for a in c.arg_exprs() for x in walk(a))]
-                return all(c.block not in zr or c.block in f.reach(si.target_of(False), include_src=True) and c.block not in (zr - f.reach(si.target_of(False), include_src=True)) for c in direct + spawns)
+                return all(c.block not in zr or c.block in f.reach(nzt, include_src=True) and c.block not in (zr - f.reach(nzt, include_src=True)) for c in direct + spawns)
     return False
 
 
@@ -633,7 +692,7 @@ def rule_shift_order(ctx, p, cfg, rid="R1"):
             if m["kind"] == "range":
                 r.require("Rev<" in m["iter_ty"] and "Range<u32>" in m["iter_ty"], "iterator-type", fn=rot, detail="iterator type %s" % m["iter_ty"])
             else:
-                r.require(m["desc"], "iterator-type", fn=rot, detail="hand-written countdown by one, variable updated after the move")
+                r.require(m["desc"], "iterator-type", fn=rot, detail="hand-written countdown by one, variable updated once per iteration, before every use or after the move")
             c = mv_sites[0]
             src, dst = index_of(c.arg(0)), index_of(c.arg(1))
             r.require(src is not None and dst is not None, "paths-from-pattern", fn=rot, site=c.at, detail="src/dst are pattern.replace(\"{}\", index)")
